@@ -381,12 +381,12 @@ func (c *Ctx) checkEOFGuards(info *types.Info, fd *ast.FuncDecl) {
 			return false
 		}
 		rs, ok := nd.(*ast.ReturnStmt)
-		if !ok || len(rs.Results) != 2 || !isPkgObj(info, rs.Results[1], "io", "EOF") {
+		if !ok || !isEOFReturn(info, fd, rs, stack) { // c03x.go: literal io.EOF or `err = io.EOF; return`
 			return true
 		}
 		n++
 		key := "Read:eof#" + itoa(n)
-		if inDoneArm(info, stack) {
+		if inCancelledArm(info, stack) { // c03x.go: `case <-ctx.Done()` or `if ctx.Err() != nil`
 			c.OK(eofGuardRule, key, rs.Pos(), "EOF in the cancelled-context arm")
 			return true
 		}
